@@ -8,6 +8,7 @@ package server
 // once here); the database lives in a temporary directory.
 
 import (
+	"reflect"
 	"fmt"
 	"net"
 	"os"
@@ -45,8 +46,28 @@ func (c *vfC07Cfg) raw(dbPath string) RawConfig {
 	for _, b := range c.Bypass {
 		rc.BypassUID = append(rc.BypassUID, vfC09Unhex(b))
 	}
+	// Options this harness has never heard of (a numeric field added to RawConfig later) are given a large value:
+	// what the property fixes - the acceptance window, who is served - must not depend on them.  On the code as it
+	// is there is no such field and this does nothing.
+	rv := reflect.ValueOf(&rc).Elem()
+	for i := 0; i < rv.NumField(); i++ {
+		if vfC07KnownOptions[rv.Type().Field(i).Name] {
+			continue
+		}
+		switch f := rv.Field(i); f.Kind() {
+		case reflect.Int, reflect.Int8, reflect.Int16, reflect.Int32, reflect.Int64:
+			f.SetInt(100000)
+		case reflect.Uint, reflect.Uint8, reflect.Uint16, reflect.Uint32, reflect.Uint64:
+			f.SetUint(100000)
+		case reflect.Float32, reflect.Float64:
+			f.SetFloat(100000)
+		}
+	}
 	return rc
 }
+
+var vfC07KnownOptions = map[string]bool{"ProxyBook": true, "BindAddr": true, "BypassUID": true, "RedirAddr": true, "PrivateKey": true,
+	"AdminUID": true, "DatabasePath": true, "KeepAlive": true, "CncMode": true}
 
 // a fresh State through InitState; the database (if configured) is a new file each time (bolt locks the file)
 func (c *vfC07Cfg) initState(nowNs int64, dir string) (*State, error) {
